@@ -13,8 +13,8 @@ def xs1Code : List DInstr :=
 set_option maxRecDepth 100000 in
 set_option maxHeartbeats 1000000 in
 theorem xs2_spec (s : State) (hG : s.gpr.length = 16) (hV : s.vec.length = 32) (Mf : List Nat → List Region) (dbase dlen : Nat)
-    (bf : Buf Mf dbase dlen) (src : List Nat) (sp : Nat) (hsrc : ∀ b, b.length = dlen → DataAt (Mf b) sp src) (hsb : ∀ x ∈ src, x < 2 ^ 8)
-    (b0 : List Nat) (hb0 : b0.length = dlen) (hm : s.mem = Mf b0) (so doff : Nat) (h10 : greg s 10 = sp + so) (h13 : greg s 13 = dbase + doff)
+    (bf : Buf Mf dbase dlen) (src : List Nat) (sp : Nat) (hsb : ∀ x ∈ src, x < 2 ^ 8)
+    (b0 : List Nat) (hb0 : b0.length = dlen) (hm : s.mem = Mf b0) (so doff : Nat) (hsrc : SrcFrom (Mf b0) sp src so) (h10 : greg s 10 = sp + so) (h13 : greg s 13 = dbase + doff)
     (hso : so + 32 ≤ src.length) (hdo : doff + 32 ≤ dlen) (hsp : sp + src.length < 2 ^ 63) (hdb : dbase + dlen < 2 ^ 63)
     (ks0 ks1 : List Nat) (h9 : vreg s 9 < 2 ^ (8 * 16) ∧ lanes 8 16 (vreg s 9) = ks0 ∧ ks0.length = 16 ∧ ∀ x ∈ ks0, x < 2 ^ 8)
     (h8 : vreg s 8 < 2 ^ (8 * 16) ∧ lanes 8 16 (vreg s 8) = ks1 ∧ ks1.length = 16 ∧ ∀ x ∈ ks1, x < 2 ^ 8) :
@@ -36,7 +36,7 @@ theorem xs2_spec (s : State) (hG : s.gpr.length = 16) (hV : s.vec.length = 32) (
     exact ⟨by rw [List.length_take, List.length_drop]; omega, fun x hx => hsb x (List.mem_of_mem_drop (List.mem_of_mem_take hx))⟩
   have hrd : ∀ a, a + 16 ≤ 32 → readMem (Mf b0) (sp + so + a) 16 = .ok ((src.drop (so + a)).take 16) := by
     intro a ha
-    rw [Nat.add_assoc]; exact hsrc b0 hb0 (so + a) 16 (by omega)
+    rw [Nat.add_assoc]; exact hsrc (so + a) 16 (by omega) (by omega)
   have x0 := vpxord_bytes 16 c0 ks0 b9 (by decide) (hc 0 (by omega)).1 (hc 0 (by omega)).2 h9.1 h9.2.1
   have x1 := vpxord_bytes 16 c1 ks1 b8 (by decide) (hc 16 (by omega)).1 (hc 16 (by omega)).2 h8.1 h8.2.1
   let o0 := xorN c0 ks0; let o1 := xorN c1 ks1
@@ -80,8 +80,8 @@ theorem xs2_spec (s : State) (hG : s.gpr.length = 16) (hV : s.vec.length = 32) (
 set_option maxRecDepth 100000 in
 set_option maxHeartbeats 1000000 in
 theorem xs1_spec (s : State) (hG : s.gpr.length = 16) (hV : s.vec.length = 32) (Mf : List Nat → List Region) (dbase dlen : Nat)
-    (bf : Buf Mf dbase dlen) (src : List Nat) (sp : Nat) (hsrc : ∀ b, b.length = dlen → DataAt (Mf b) sp src) (hsb : ∀ x ∈ src, x < 2 ^ 8)
-    (b0 : List Nat) (hb0 : b0.length = dlen) (hm : s.mem = Mf b0) (so doff : Nat) (h10 : greg s 10 = sp + so) (h13 : greg s 13 = dbase + doff)
+    (bf : Buf Mf dbase dlen) (src : List Nat) (sp : Nat) (hsb : ∀ x ∈ src, x < 2 ^ 8)
+    (b0 : List Nat) (hb0 : b0.length = dlen) (hm : s.mem = Mf b0) (so doff : Nat) (hsrc : SrcFrom (Mf b0) sp src so) (h10 : greg s 10 = sp + so) (h13 : greg s 13 = dbase + doff)
     (hso : so + 16 ≤ src.length) (hdo : doff + 16 ≤ dlen) (hsp : sp + src.length < 2 ^ 63) (hdb : dbase + dlen < 2 ^ 63)
     (ks0 : List Nat) (h9 : vreg s 9 < 2 ^ (8 * 16) ∧ lanes 8 16 (vreg s 9) = ks0 ∧ ks0.length = 16 ∧ ∀ x ∈ ks0, x < 2 ^ 8) :
     ∃ s', execList xs1Code s = .ok s' ∧
@@ -100,7 +100,7 @@ theorem xs1_spec (s : State) (hG : s.gpr.length = 16) (hV : s.vec.length = 32) (
     ⟨by show ((src.drop (so + 0)).take 16).length = 16; rw [List.length_take, List.length_drop]; omega,
       fun x hx => hsb x (List.mem_of_mem_drop (List.mem_of_mem_take hx))⟩
   have hrd : readMem (Mf b0) (sp + so + 0) 16 = .ok c0 := by
-    rw [Nat.add_assoc]; exact hsrc b0 hb0 (so + 0) 16 (by omega)
+    rw [Nat.add_assoc]; exact hsrc (so + 0) 16 (by omega) (by omega)
   have x0 := vpxord_bytes 16 c0 ks0 b9 (by decide) hc0.1 hc0.2 h9.1 h9.2.1
   let o0 := xorN c0 ks0
   have l0 : o0.length = 16 := by show (xorN _ _).length = 16; rw [xorN_length, hc0.1, h9.2.2.1]; rfl
